@@ -47,7 +47,8 @@ func (c *consumption) Close() error {
 	}
 
 	c.closed = true
-	c.recvQueue.Signal()
+	// 入列 nil 而不是仅发信号：避免在关闭检查与等待之间丢失唤醒
+	c.recvQueue.Push(nil)
 	return nil
 }
 
